@@ -778,7 +778,8 @@ def c17_histories(tier, seed):
                 tg.append(p if target_kind != "root" else [])
             for o in ops:
                 o["heavy"] = False
-            vs = times if tier == "thorough" else rng.sample(times, 9)
+            must = [t for t in ("far", "far_past", "far_2_64", "past_2_64", "beyond", "max_tick", "pre1601_far", "y1601_p50", "pre70_50") if t in times]
+            vs = times if tier == "thorough" else must + rng.sample([t for t in times if t not in must], 5)
             for i, t in enumerate(vs):
                 p = tg[i % 3]
                 ops.append({"op": "set_ctime", "p": sp(p), "v": t, "heavy": True})
@@ -799,6 +800,60 @@ def c17_histories(tier, seed):
             ops.append({"op": "set_mtime", "p": sp([".."]), "v": "epoch"})
             ops.append({"op": "reopen", "mode": "permissive", "heavy": True})
             out.append({"id": f"meta_v{ver}_{target_kind}", "ver": ver, "heavy": "marked", "ops": ops})
+    return out
+
+
+def c17_setter_after_removal(tier):
+    """setter(P), P goes away by every removal the API has (or is replaced by an object of the other kind), the SAME
+    setter on P again (NotFound / the new object's rules), then a new object is created - it reuses the freed
+    directory slot - and must carry default metadata; finally P's siblings are listed."""
+    out = []
+    setters = [("set_bits", "r1"), ("set_clsid", "r2"), ("set_ctime", "y2038"), ("set_mtime", "pre70_50"), ("touch", None)]
+    removals = ["remove_storage", "remove_storage_all_self", "remove_storage_all_parent", "remove_storage_all_root", "remove_stream", "recreate_stream"]
+    i = 0
+    for ver in (3, 4):
+        for (st, v) in setters:
+            for rm in removals:
+                kind = "stream" if rm in ("remove_stream", "recreate_stream") else "storage"
+                if kind == "stream" and st == "set_clsid":
+                    continue
+                P = ["foo", "k1"]
+                ops = [{"op": "create_storage", "p": sp(["foo"])},
+                       {"op": "create_stream" if kind == "stream" else "create_storage", "p": sp(P)},
+                       {"op": "create_storage", "p": sp(["bar"])}]
+                def setter(path):
+                    o = {"op": st, "p": sp(path)}
+                    if v is not None:
+                        o["v"] = v
+                    return o
+                ops.append(setter(P))
+                ops.append({"op": "entry", "p": sp(P)})
+                if rm == "remove_storage":
+                    ops.append({"op": "remove_storage", "p": sp(P)})
+                elif rm == "remove_storage_all_self":
+                    ops.append({"op": "remove_storage_all", "p": sp(P)})
+                elif rm == "remove_storage_all_parent":
+                    ops.append({"op": "remove_storage_all", "p": sp(["foo"])})
+                elif rm == "remove_storage_all_root":
+                    ops.append({"op": "remove_storage_all", "p": sp([])})
+                elif rm == "remove_stream":
+                    ops.append({"op": "remove_stream", "p": sp(P)})
+                else:
+                    ops.append({"op": "create_stream", "p": sp(P)})      # overwrite: the same object, metadata kept
+                ops.append(setter(P))                                       # gone: NotFound (kept: Ok)
+                ops.append({"op": "create_storage_all", "p": sp(["zz", "quux"])})
+                ops.append({"op": "create_stream", "p": sp(["zz", "a"])})
+                ops.append({"op": "entry", "p": sp(["zz"])})
+                ops.append({"op": "entry", "p": sp(["zz", "quux"])})
+                ops.append({"op": "entry", "p": sp(["zz", "a"])})
+                ops.append(setter(P))
+                ops.append({"op": "walk_storage", "p": sp([])})
+                for o in ops:
+                    o["heavy"] = False
+                ops[-1]["heavy"] = True
+                ops.append({"op": "reopen", "mode": "strict" if i % 2 else "permissive", "heavy": True})
+                out.append({"id": f"meta_rm_v{ver}_{st}_{rm}", "ver": ver, "heavy": "marked", "ops": ops})
+                i += 1
     return out
 
 
